@@ -153,8 +153,12 @@ def r2_keywords(ctx):
     app = [(b, f["blocks"][b]["term"]) for b in sorted(cfg.reach) if f["blocks"][b]["term"]["k"] == "call" and (f["blocks"][b]["term"]["callee"].get("key") or "").endswith("::info::append_maybe")]
     keys = []
     for b, t in app:
-        k = ex.operand(t["args"][1])
-        keys.append((k[1] if k[0] == "c" else None, b, t["line"]))
+        # the key is the string literal among the arguments (its position is not fixed: a parameter may have been added)
+        lit = [x for x in (ex.operand(a) for a in t["args"]) if x[0] == "c" and isinstance(x[1], str)]
+        keys.append((lit[0][1] if len(lit) == 1 else None, b, t["line"]))
+    if any(k is None for k, _, _ in keys):
+        ctx.lost(rid, "the key literal of %d append_maybe call(s) in ConsoleUciTx::info" % len([1 for k, _, _ in keys if k is None]))
+        return
     if len(keys) < 10:
         ctx.lost(rid, "append_maybe calls in ConsoleUciTx::info (found %d)" % len(keys))
         return
@@ -477,6 +481,19 @@ def r6_ponder_from_this_search(ctx):
     # (whatever it is called)
     answers = {l for l, defs in ex.defs.items() if l > f["args"] and "Option<" in f["locals"][l]["ty"] and "Move" in f["locals"][l]["ty"] and any(cfg.in_loop(d[1]) for d in defs)}
     answers |= {l for l, n in names.items() if n == "best_move"}
+    # ... or an Option of anything (a struct bundling the accepted iteration's results) that is assigned in the loop and
+    # that the returned move is computed from
+    from ..slice import Slicer
+    ret_seeds = set()
+    for b_ in sorted(cfg.reach):
+        for s_ in f["blocks"][b_]["stmts"]:
+            d_ = s_["dst"]
+            if d_ is not None and d_["l"] == 0 and not d_["p"] and s_["rv"]["op"] == "agg" and s_["rv"].get("kind") == "tuple" and s_["rv"]["a"] and s_["rv"]["a"][0].get("k") in ("copy", "move"):
+                ret_seeds.add(s_["rv"]["a"][0]["pl"]["l"])
+    if ret_seeds:
+        flow, _ = Slicer(f).data_backward(sorted(ret_seeds))
+        answers |= {l for l in flow if l > f["args"] and f["locals"][l]["ty"].startswith(("std::option::Option<", "core::option::Option<", "Option<"))
+                    and "&" not in f["locals"][l]["ty"] and any(cfg.in_loop(d[1]) for d in ex.defs.get(l, ()))}
     reads = [b for b in sorted(cfg.reach) if f["blocks"][b]["term"]["k"] == "call" and (f["blocks"][b]["term"]["callee"].get("key") or "").endswith("SearchState::ponder_move")]
     if not reads or not answers:
         ctx.lost(rid, "Search::best_move: the SearchState::ponder_move call and the local that holds the answer")
